@@ -25,9 +25,11 @@ fn replay_c16_signature_attributed_to_named_party() {
         "the signature made by party '{}' with its own key is accepted (authenticated) under the name of party '{}': verify_single_signature checks the key at the signature's signer_index and never the claimed party_id", a, b);
 }
 
-/// the part that does hold: a signature is only accepted if it verifies under the key at the slot it names
+/// a signature is only accepted if it verifies under the key at the slot it names AND that key is the one registered by the
+/// party the submission names
 #[test]
 fn replay_verify_single_signature() {
+    replay_c16_signature_attributed_to_named_party();
     let fixture = MithrilFixtureBuilder::default().with_signers(3).build();
     let multi_signer = build_multi_signer(&fixture);
     let message = ProtocolMessage::default();
@@ -36,4 +38,13 @@ fn replay_verify_single_signature() {
     let mut other_message = ProtocolMessage::default();
     other_message.set_message_part(crate::entities::ProtocolMessagePartKey::SnapshotDigest, "another".to_string());
     assert!(multi_signer.verify_single_signature(&other_message, &sig).is_err(), "signature accepted for another message");
+    // an unknown party name, and every honest signer under its own name
+    let mut unknown = sig.clone();
+    unknown.party_id = "pool-unknown".to_string();
+    assert!(multi_signer.verify_single_signature(&message, &unknown).is_err(), "signature accepted under a party name that never registered");
+    for s in signers.iter() {
+        if let Some(own) = s.sign(&message) {
+            multi_signer.verify_single_signature(&message, &own).expect("an honest signature under the signer's own name is rejected");
+        }
+    }
 }
